@@ -730,8 +730,19 @@ def above (c : GColumn) (l : GLayer) : Except Exc Bool :=
   | some z => .ok (decide (z.toRat > l.bottom.toRat))
   | none => .error .typeError
 
+/-- a list comprehension `[x for x in xs if p(x)]` whose test can raise -/
+def filterE {α : Type} (p : α → Except Exc Bool) : List α → Except Exc (List α)
+  | [] => .ok []
+  | a :: r =>
+    match p a with
+    | .error e => .error e
+    | .ok b =>
+      match filterE p r with
+      | .error e => .error e
+      | .ok t => .ok (if b then a :: t else t)
+
 def layerColumns (cs : List GColumn) (l : GLayer) : Except Exc (List GColumn) :=
-  cs.filterM fun c => above c l
+  filterE (fun c => above c l) cs
 
 /-- `block_name_list_layer_column` -/
 def namesLayerColumn (conv : Int) (g : Geo) : Except Exc (List Str) := do
